@@ -14,7 +14,7 @@ import (
 func init() {
 	register(stream{
 		name: "selector",
-		rule: "every selector made of ≤ K segments (K=2 quick, 3 thorough) from a 24-shape segment alphabet (field present/missing/empty-name, explicit field, index in/out of range/negative, open/closed/reversed/negative slices, iterator, identity; each optional or not) applied to each of 18 data values of every IPLD kind (maps, lists, valid/invalid UTF-8 strings, bytes, scalars, null); plus random longer selectors on random trees. Non-trivial = the selector has ≥ 2 segments and resolution gets past the first segment or involves an optional segment. Distinct = distinct protocol lines.",
+		rule: "every selector made of ≤ K segments (K=2 quick, 3 thorough) from a 24-shape segment alphabet (field present/missing/empty-name, explicit field, index in/out of range/negative, open/closed/reversed/negative slices, iterator, identity; each optional or not) applied to each of 18 data values of every IPLD kind (maps, lists, valid/invalid UTF-8 strings, bytes, scalars, null); plus random longer selectors on random trees. Added later: a second parse of the same text is first applied to 12 values of other kinds and lengths and must then answer like the fresh one (a selector is not changed by being used); [==, selector, selected value] holds for the policy as built and as decoded; quoted field names containing ??; 48- and 50-byte strings of multi-byte characters. Non-trivial = the selector has ≥ 2 segments and resolution gets past the first segment or involves an optional segment. Distinct = distinct protocol lines.",
 		run:  runSelectorStream,
 		eval: evalSelector,
 		cmp:  cmpImplSpec,
